@@ -587,6 +587,8 @@ package app
 //@   assert_at SetActiveNodes#* C04.publish_calculated [C04]: forall i int :: in_range(i, callarg0) ==> contains(resultof("calcActiveNodes", 1, 0), callarg0[i])
 //@   assert_at SetActiveNodes#2 C04.b_at_publish [C04]: bHolds(app, master, len(callarg0))
 //@   assert_at SetActiveNodes#2 C04.lagfree_publish [C04]: forall i int :: in_range(i, callarg0) ==> !contains(becomeDataLag, callarg0[i])
+//@   assert_at SetActiveNodes#2 C04.a_enabled_are_members [C04]: forall h string :: contains(becomeActive, h) && g_ssSlave[h] ==> contains(callarg0, h)
+//@   crash_invariant C04.crash_b [C04]: app.config.SemiSync && old(bHolds(app, master, len(d_active))) ==> bHolds(app, master, len(d_active))
 //@   assert_at SetActiveNodes#1 C04.async_publish [C04]: !app.config.SemiSync
 //@   ensures C04.never_promotes [C04,C01]: noPromoteEffects() && g_ro == old(g_ro) && g_sro == old(g_sro) && e_ChangeMaster == old(e_ChangeMaster) && e_SetActive <= old(e_SetActive) + 1
 
